@@ -26,6 +26,8 @@ m = {
               "baseline_off_cmd": "cd /repo && cargo test --workspace --no-fail-fast --offline",
               "source_commits": [], "add_only": True},
     "engines": [
+        {"name": "translation-tie", "path": "translator/ coq/Mir.v coq/MirSem.v coq/Tie/", "serves_properties": claimed,
+         "kind_free_text": "Rust-to-Gallina syntactic translator (syn) + interpreter; tie theorems and pins re-compiled against /repo's current sources"},
         {"name": "coq-model", "path": "coq/", "serves_properties": claimed,
          "kind_free_text": "hand-written Gallina model + theorems (Coq 8.16.1), extracted to OCaml for execution"},
         {"name": "correspondence", "path": "harness/ gen/ check", "serves_properties": claimed,
@@ -38,9 +40,12 @@ for p in props:
     if pid in claimed:
         cat, text = LEVELS.get(pid, ("proof",
             "Unbounded theorems about a hand-written Gallina model of the code (Props/%s.v, kernel-checked, no axioms, Print Assumptions "
-            "under every theorem), tied to /repo's current working tree on every run by a correspondence check (differential execution of "
+            "under every theorem), tied to /repo's current working tree on every run in two ways: (1) a translator regenerates Gallina "
+            "syntax trees of the crates' functions and the tie theorems (interpreter of the translated body = model function, for all "
+            "inputs) and syntactic pins of coq/Tie are re-checked against them; (2) a correspondence check (differential execution of "
             "the extracted model and the real crates on generated cases) plus the property's own predicate evaluated on the "
-            "implementation's outputs. A broken correspondence or proof obligation is reported as a violation." % pid))
+            "implementation's outputs. A broken tie, correspondence or proof obligation is reported as a violation, with a failing "
+            "input when the (then enlarged) search finds one." % pid))
         m["checks"].append({
             "property_id": pid,
             "quick_cmd": "./check %s --tier quick" % pid,
@@ -50,8 +55,11 @@ for p in props:
             "engine": "coq-model",
             "level_claimed": {"category": cat, "text": text, "design_ref": "DESIGN.md section 5, %s" % pid},
             "level_note": "Trusted: Coq kernel, extraction (ExtrOcamlBasic only) + OCaml driver, Rust harness and toy ciphers, Python "
-                          "generators/oracles; Rust semantics and the dependency crates are modelled, not verified; the model-code tie is sampling.",
-            "technique": "machine-checked proof in Coq (Rocq) + per-run model/code correspondence check"})
+                          "generators/oracles, the syntactic translator rs2v (syn) and the interpreter MirSem.v that gives the translated "
+                          "Rust subset its meaning; Rust semantics and the dependency crates are modelled, not verified; functions without a "
+                          "semantic tie theorem (generic plumbing, buffered CFB, cts) are tied by syntactic pins and by sampling.",
+            "technique": "machine-checked proof in Coq (Rocq): model theorems + translation tie (rs2v, tie theorems, pins) re-checked per run + "
+                         "model/code correspondence check"})
     else:
         m["not_applicable"].append({"property_id": pid, "reason": "not claimed yet: theorems for this property are still being written "
                                     "(generator, oracle and correspondence exist; see DESIGN.md)"})
